@@ -7,6 +7,7 @@ import (
 	"os"
 	"strings"
 
+	"verif/harness/internal/drv"
 	"verif/harness/internal/eng"
 )
 
@@ -24,6 +25,7 @@ func init() {
 		casesPath := fs.String("cases", "", "case table written by TLC")
 		tier := fs.String("tier", "quick", "quick|thorough")
 		limits := fs.Bool("limits", false, "run the size-limit part of the table (C18)")
+		only := fs.String("only", "", "report only violations of this property (the engine observes C01 / C18 outcomes and C14 residue)")
 		resPath := fs.String("result", "", "result JSON")
 		_ = fs.Parse(args)
 		res := &Result{Command: "ingress", Seed: *seed, Rule: "one execution per (case of the TLC table, storage mode, zstd implementation, blob size); non-trivial = the upload is defective, pre-existing or at a limit; distinct by that tuple"}
@@ -53,6 +55,15 @@ func init() {
 			res.Error = err.Error()
 			writeResult(*resPath, res)
 			return 2
+		}
+		if *only != "" {
+			var keep []drv.Violation
+			for _, v := range viols {
+				if v.Prop == *only {
+					keep = append(keep, v)
+				}
+			}
+			viols = keep
 		}
 		res.Cases = len(runs)
 		seen := map[string]bool{}
